@@ -12,7 +12,7 @@ Context {S : Scalar}.
 Local Notation vec := (vec S).
 Local Notation crs := (crs S).
 
-(* spectral_radius<scale>(A, 0), one thread (after /repo fix f082a42: `dia` is a local of the
+(* spectral_radius<scale>(A, 0), one thread (after /repo fix 519d545: `dia` is a local of the
    row loop body, reset to the identity for EVERY row): emax = max_i s_i,
    s_i = sum_j |a_ij|, times |inverse(dia_i)| when scale; dia_i = LAST entry with col == i of
    row i, identity when the row has no diagonal entry *)
